@@ -73,7 +73,7 @@ CFG = {
     # model-checked only (safety + liveness), too large to replay edge by edge within the thorough budget
     "thorough_mc_only": [
         K(1, "m", "t", stop=True), K(3, "sss", "s", own=True), K(2, "st", "cs", own=True, stop=True),
-        K(2, "sm", "ts", nodrop=(1,), stop=True), K(3, "ssss", "ss"),
+        K(2, "sm", "ts", nodrop=(1,), stop=True), K(3, "sss", "ss"),
     ],
 }
 
@@ -483,7 +483,7 @@ def model_and_replay(ck, k, tier, shards):
     write_cfg(cfg, k, emit=True, invariants=SAFETY + " " + SAFETY_EXT)
     edges = os.path.join(ck.dir, f"edges_{lab}.ndjson")
     res = vlib.tlc("MC_Ring", os.path.basename(cfg), timeout=3000 if tier == "thorough" else 900, tags=("EDGE",),
-                   sinks={"EDGE": edges}, tag=f"MC_Ring_{lab}", heap="2g")
+                   sinks={"EDGE": edges}, tag=f"MC_Ring_{lab}", heap="1500m")
     os.remove(cfg)
     return lab, res, edges
 
@@ -573,7 +573,7 @@ def stress(ck, tier):
     n = s["chunks"]
     chunks = [scen[i::n] for i in range(n)]
     out = {"scenarios": len(scen), "events": 0, "states": 0, "rejected": []}
-    with cf.ThreadPoolExecutor(max_workers=n) as ex:
+    with cf.ThreadPoolExecutor(max_workers=min(n, 3)) as ex:
         for i, tres, rows, rejected in ex.map(lambda a: stress_chunk(ck, *a), enumerate(chunks)):
             if tres is None:
                 ck.divergence({"sub": "ring", "rule": "MemSafe", "kind": "stress-crash"}, rejected)
@@ -645,7 +645,9 @@ def run(tier):
     live_cfgs = [k for k in cfgs if (len(k["p1"]) + len(k["p2"]) + len(k["p3"]) <= 3) or tier == "thorough"]
     # biggest configurations first; everything (TLC safety+edges -> replay, TLC liveness, probes) shares one pool
     # configurations run in worker processes (building the schedules is CPU-bound Python), the rest in threads
-    with cf.ThreadPoolExecutor(max_workers=4) as ex, cf.ProcessPoolExecutor(max_workers=4 if tier == "quick" else 3) as px:
+    # at most ~5 JVMs at a time (each <= 1-2 GB), replay shards are a few MB each: a whole run stays under ~4 GB RSS
+    with cf.ThreadPoolExecutor(max_workers=3 if tier == "quick" else 2) as ex, \
+            cf.ProcessPoolExecutor(max_workers=4 if tier == "quick" else 3) as px:
         order = sorted(cfgs, key=lambda k: -(len(k["p1"]) + len(k["p2"]) + len(k["p3"]) + (2 if k["stop"] else 0)))
         futs = {label_of(k): px.submit(one_config, DirOnly(ck.dir), k, tier, shards) for k in order}
         pfuts = [(dev, k, inv, name, ex.submit(probe_witness, ck, dev, k, inv, name)) for dev, k, inv, name in PROBES]
